@@ -195,7 +195,8 @@ def check_case(eng, d, case, oc):
         oc.count("exec_exception_" + type(e).__name__)
         return ok
     oc.count("notes_%d" % min(len([g for g in got if g]), 9))
-    trig = "pooled_kinds_or_priorities" if pooled(impl) != pooled(sq) else None
+    # a known finding explains a failure only when the expansion is the one the modelled (unchanged) code produces
+    trig = "pooled_kinds_or_priorities" if (pooled(impl) != pooled(sq) and (model[0] == "oom" or impl_r == model)) else None
     if trig:
         oc.count("known_class_pooled")
     if got != want:
